@@ -1,29 +1,1512 @@
+//! C01 correspondence harness: every array returned by a safe API is a well-formed Arrow array.
+//!
+//! Runtime verification by the proved validator `wellFormedB` (Lean, C09/Physical.lean) over random
+//! kernel *pipelines*.  One case line per array that a safe API handed out:
+//!
+//!   C01 step  <desc> <step> <ltype> <dump>     array in the C09 physical grammar `A(type;len;offset;nulls;bufs;kids)`
+//!   C01 stepx <desc> <step> <ltype> <dump>     same, type tree outside the Lean `DType` (views, list-views): driver answers SKIP
+//!   C01 batch <desc> <rows> <fields> <cols>    a RecordBatch handed out by a reader (schema/column agreement)
+//!
+//! `<ltype>` is the hex of `DataType::to_string()` (the logical type, parsed back with `DataType::from_str`),
+//! `<step>` is `name:seed` (the kernel applied to this array to obtain the next one) or `end`,
+//! `<desc>` is provenance only (`seed.pipeline.stage/grid type/previous step`).
+//!
+//! `run_case` is self-contained: it rebuilds the dumped layout with `ArrayDataBuilder::build_unchecked`,
+//! checks it with the real `ArrayData::validate_full` (oracle), turns it into a typed array with
+//! `make_array`, applies `<step>` under `catch_unwind`, checks the output with `validate_full`, formats
+//! every row of it, and stashes the output; gen mode dumps that output into the next case line.  So every
+//! array of every stage is judged twice: by `validate_full` here and by `wellFormedB` in the Lean driver.
+//! The harness answer is always `wf=1` (that is the property); a panic of a safe kernel on a valid input, a
+//! `validate_full` failure or a RecordBatch that disagrees with its schema is an oracle failure.
+use arrow_array::builder::*;
+use arrow_array::cast::AsArray;
+use arrow_array::types::*;
+use arrow_array::*;
+use arrow_buffer::{Buffer, NullBuffer, ScalarBuffer};
+use arrow_data::{ArrayData, ArrayDataBuilder};
 use arrow_schema::*;
-use std::sync::Arc;
+use std::cell::RefCell;
+use std::panic::{AssertUnwindSafe, catch_unwind};
 use std::str::FromStr;
-fn main() {
-    let f = |n: &str, t: DataType, nb: bool| Arc::new(Field::new(n, t, nb));
-    let tys = vec![
-        DataType::Decimal128(10, 2),
-        DataType::Timestamp(TimeUnit::Millisecond, Some("UTC".into())),
-        DataType::Timestamp(TimeUnit::Nanosecond, None),
-        DataType::List(f("item", DataType::Int32, true)),
-        DataType::List(f("item", DataType::Int32, false)),
-        DataType::LargeList(f("x", DataType::Utf8, true)),
-        DataType::FixedSizeList(f("item", DataType::Int16, true), 3),
-        DataType::Struct(Fields::from(vec![Field::new("a", DataType::Int32, false), Field::new("b", DataType::Utf8, true)])),
-        DataType::Dictionary(Box::new(DataType::Int8), Box::new(DataType::Utf8)),
-        DataType::RunEndEncoded(f("run_ends", DataType::Int32, false), f("values", DataType::Utf8, true)),
-        DataType::Union(UnionFields::try_new(vec![0, 5], vec![Field::new("a", DataType::Int32, true), Field::new("b", DataType::Utf8, true)]).unwrap(), UnionMode::Dense),
-        DataType::Union(UnionFields::try_new(vec![0, 5], vec![Field::new("a", DataType::Int32, true), Field::new("b", DataType::Utf8, true)]).unwrap(), UnionMode::Sparse),
-        DataType::Utf8View,
-        DataType::ListView(f("item", DataType::Int32, true)),
-        DataType::Map(f("entries", DataType::Struct(Fields::from(vec![Field::new("keys", DataType::Utf8, false), Field::new("values", DataType::Int32, true)])), false), false),
-        DataType::FixedSizeBinary(3),
-    ];
-    for t in tys {
-        let s = t.to_string();
-        let r = DataType::from_str(&s);
-        println!("{} => {}", s, match r { Ok(x) => (x == t).to_string(), Err(e) => format!("ERR {e}") });
+use std::sync::Arc;
+use vcommon::*;
+
+const MAX_ROWS: usize = 40;
+
+// ------------------------------------------------------------------------------- physical type
+
+fn nbc(b: bool) -> char {
+    if b { '?' } else { '!' }
+}
+
+fn prim_width(dt: &DataType) -> Option<usize> {
+    use DataType::*;
+    Some(match dt {
+        Int8 | UInt8 => 1,
+        Int16 | UInt16 | Float16 => 2,
+        Int32 | UInt32 | Float32 | Date32 | Time32(_) | Decimal32(..) | Interval(IntervalUnit::YearMonth) => 4,
+        Int64 | UInt64 | Float64 | Date64 | Time64(_) | Timestamp(..) | Duration(_) | Decimal64(..) | Interval(IntervalUnit::DayTime) => 8,
+        Decimal128(..) | Interval(IntervalUnit::MonthDayNano) => 16,
+        Decimal256(..) => 32,
+        _ => return None,
+    })
+}
+
+/// type token of the C09 dump grammar (view / list-view types get tokens of their own: `v w q Q`)
+fn phys_ty(dt: &DataType) -> String {
+    use DataType::*;
+    if let Some(w) = prim_width(dt) {
+        return format!("p{}", w);
     }
+    match dt {
+        Null => "n".into(),
+        Boolean => "b".into(),
+        Utf8 => "t".into(),
+        LargeUtf8 => "T".into(),
+        Binary => "y".into(),
+        LargeBinary => "Y".into(),
+        Utf8View => "v".into(),
+        BinaryView => "w".into(),
+        FixedSizeBinary(n) => format!("x{}", n),
+        List(f) => format!("l{}<{}>", nbc(f.is_nullable()), phys_ty(f.data_type())),
+        LargeList(f) => format!("L{}<{}>", nbc(f.is_nullable()), phys_ty(f.data_type())),
+        Map(f, _) => format!("l{}<{}>", nbc(f.is_nullable()), phys_ty(f.data_type())),
+        ListView(f) => format!("q{}<{}>", nbc(f.is_nullable()), phys_ty(f.data_type())),
+        LargeListView(f) => format!("Q{}<{}>", nbc(f.is_nullable()), phys_ty(f.data_type())),
+        FixedSizeList(f, n) => format!("f{}{}<{}>", n, nbc(f.is_nullable()), phys_ty(f.data_type())),
+        Struct(fs) => format!("s<{}>", fs.iter().map(|f| format!("{}{}", nbc(f.is_nullable()), phys_ty(f.data_type()))).collect::<Vec<_>>().join(",")),
+        Dictionary(k, v) => {
+            let signed = matches!(**k, Int8 | Int16 | Int32 | Int64);
+            format!("d{}{}<{}>", prim_width(k).unwrap_or(0), if signed { 's' } else { 'u' }, phys_ty(v))
+        }
+        RunEndEncoded(r, v) => format!("r{}<{}>", prim_width(r.data_type()).unwrap_or(0), phys_ty(v.data_type())),
+        Union(fs, mode) => format!(
+            "{}<{}>",
+            if *mode == UnionMode::Dense { 'D' } else { 'S' },
+            fs.iter().map(|(i, f)| format!("{}:{}", i, phys_ty(f.data_type()))).collect::<Vec<_>>().join(",")
+        ),
+        _ => "?".into(),
+    }
+}
+
+fn child_types(dt: &DataType) -> Vec<DataType> {
+    use DataType::*;
+    match dt {
+        List(f) | LargeList(f) | FixedSizeList(f, _) | ListView(f) | LargeListView(f) | Map(f, _) => vec![f.data_type().clone()],
+        Struct(fs) => fs.iter().map(|f| f.data_type().clone()).collect(),
+        Dictionary(_, v) => vec![(**v).clone()],
+        RunEndEncoded(r, v) => vec![r.data_type().clone(), v.data_type().clone()],
+        Union(fs, _) => fs.iter().map(|(_, f)| f.data_type().clone()).collect(),
+        _ => vec![],
+    }
+}
+
+/// the type tree uses a layout the Lean `DType` does not have
+fn is_ext(dt: &DataType) -> bool {
+    use DataType::*;
+    matches!(dt, Utf8View | BinaryView | ListView(_) | LargeListView(_)) || phys_ty(dt) == "?" || child_types(dt).iter().any(is_ext)
+}
+
+// ----------------------------------------------------------------------------- physical layout
+
+#[derive(Clone, Debug)]
+struct Phys {
+    dt: DataType,
+    len: usize,
+    offset: usize,
+    nulls: Option<Vec<u8>>,
+    nc: Option<usize>,
+    bufs: Vec<Vec<u8>>,
+    kids: Vec<Phys>,
+}
+
+fn hex_e(b: &[u8]) -> String {
+    if b.is_empty() { "e".into() } else { hex(b) }
+}
+fn unhex_e(s: &str) -> Vec<u8> {
+    if s == "e" { vec![] } else { unhex(s) }
+}
+
+fn show_phys(p: &Phys) -> String {
+    let nulls = match (&p.nulls, p.nc) {
+        (None, _) => "-".to_string(),
+        (Some(b), None) => hex_e(b),
+        (Some(b), Some(n)) => format!("{}:{}", hex_e(b), n),
+    };
+    let bufs = if p.bufs.is_empty() { "-".to_string() } else { p.bufs.iter().map(|b| hex_e(b)).collect::<Vec<_>>().join("|") };
+    format!("A({};{};{};{};{};{})", phys_ty(&p.dt), p.len, p.offset, nulls, bufs, p.kids.iter().map(show_phys).collect::<String>())
+}
+
+struct Cur<'a> {
+    s: &'a [u8],
+    i: usize,
+}
+impl<'a> Cur<'a> {
+    fn peek(&self) -> u8 {
+        if self.i < self.s.len() { self.s[self.i] } else { 0 }
+    }
+    fn expect(&mut self, c: u8) {
+        assert_eq!(self.peek() as char, c as char, "parse at {}", self.i);
+        self.i += 1;
+    }
+    fn until(&mut self, stop: u8) -> &'a str {
+        let st = self.i;
+        while self.i < self.s.len() && self.s[self.i] != stop {
+            self.i += 1;
+        }
+        std::str::from_utf8(&self.s[st..self.i]).unwrap()
+    }
+}
+
+/// parse a dump; the logical types come from `dt` (the dump's own type tokens are physical only)
+fn parse_phys(c: &mut Cur, dt: &DataType) -> Phys {
+    c.expect(b'A');
+    c.expect(b'(');
+    let _ty = c.until(b';');
+    c.expect(b';');
+    let len: usize = c.until(b';').parse().unwrap();
+    c.expect(b';');
+    let offset: usize = c.until(b';').parse().unwrap();
+    c.expect(b';');
+    let ns = c.until(b';');
+    c.expect(b';');
+    let bs = c.until(b';');
+    c.expect(b';');
+    let (nulls, nc) = if ns == "-" {
+        (None, None)
+    } else if let Some((h, n)) = ns.split_once(':') {
+        (Some(unhex_e(h)), Some(n.parse().unwrap()))
+    } else {
+        (Some(unhex_e(ns)), None)
+    };
+    let bufs = if bs == "-" { vec![] } else { bs.split('|').map(unhex_e).collect() };
+    let kts = child_types(dt);
+    let mut kids = vec![];
+    while c.peek() == b'A' {
+        let kt = kts.get(kids.len()).cloned().unwrap_or(DataType::Null);
+        kids.push(parse_phys(c, &kt));
+    }
+    c.expect(b')');
+    Phys { dt: dt.clone(), len, offset, nulls, nc, bufs, kids }
+}
+
+fn abuf(b: &[u8]) -> Buffer {
+    Buffer::from_slice_ref(b)
+}
+
+/// `build_unchecked` everywhere
+fn build(p: &Phys) -> ArrayData {
+    let kids: Vec<ArrayData> = p.kids.iter().map(build).collect();
+    let mut b = ArrayDataBuilder::new(p.dt.clone())
+        .len(p.len)
+        .offset(p.offset)
+        .null_bit_buffer(p.nulls.as_deref().map(abuf))
+        .buffers(p.bufs.iter().map(|b| abuf(b)).collect())
+        .child_data(kids);
+    if let Some(n) = p.nc {
+        b = b.null_count(n);
+    }
+    unsafe { b.build_unchecked() }
+}
+
+/// the physical layout of a real `ArrayData`.  The validity bitmap is re-based so that slot `i` is bit
+/// `offset + i` (the dump grammar has no separate bitmap offset); the declared null count is kept.
+fn phys_of(d: &ArrayData) -> Phys {
+    let total = d.offset() + d.len();
+    let (nulls, nc) = match d.nulls() {
+        None => (None, None),
+        Some(n) => {
+            let mut b = vec![0xffu8; (total + 7) / 8];
+            for i in 0..d.len().min(n.len()) {
+                if n.is_null(i) {
+                    let p = d.offset() + i;
+                    b[p / 8] &= !(1 << (p % 8));
+                }
+            }
+            if n.len() != d.len() {
+                ORACLE.with(|o| o.borrow_mut().push(format!("nulls-len-mismatch:{}vs{}", n.len(), d.len())));
+            }
+            (Some(b), Some(n.null_count()))
+        }
+    };
+    Phys {
+        dt: d.data_type().clone(),
+        len: d.len(),
+        offset: d.offset(),
+        nulls,
+        nc,
+        bufs: d.buffers().iter().map(|b| b.as_slice().to_vec()).collect(),
+        kids: d.child_data().iter().map(phys_of).collect(),
+    }
+}
+
+fn lt_token(dt: &DataType) -> String {
+    hex(dt.to_string().as_bytes())
+}
+fn lt_parse(tok: &str) -> DataType {
+    DataType::from_str(std::str::from_utf8(&unhex(tok)).unwrap()).expect("logical type")
+}
+
+/// layout features of a dump (recomputed from the case line, so replay tags equal gen tags)
+fn features(p: &Phys, root: bool, out: &mut Vec<&'static str>) {
+    let mut add = |s: &'static str| {
+        if !out.contains(&s) {
+            out.push(s)
+        }
+    };
+    if root {
+        if p.len == 0 {
+            add("f:empty");
+        }
+        if p.offset != 0 {
+            add("f:off");
+        }
+        if p.offset % 8 != 0 {
+            add("f:off-unaligned");
+        }
+    } else if p.offset != 0 {
+        add("f:child-off");
+    }
+    if p.nulls.is_some() {
+        add("f:nulls");
+    }
+    match &p.dt {
+        DataType::RunEndEncoded(..) => {
+            if p.kids.first().map(|k| k.offset != 0).unwrap_or(false) {
+                add("f:ree-runends-off");
+            }
+            if p.kids.get(1).map(|k| k.offset != 0).unwrap_or(false) {
+                add("f:ree-values-off");
+            }
+        }
+        DataType::Struct(fs) => {
+            if fs.is_empty() {
+                add("f:struct-nofields");
+            }
+            if p.offset != 0 && p.kids.iter().any(|k| matches!(k.dt, DataType::Struct(_))) {
+                add("f:struct-off-nested");
+            }
+            if p.kids.iter().any(|k| k.dt == DataType::Null) {
+                add("f:struct-null-child");
+            }
+            if p.kids.iter().any(|k| k.dt == DataType::FixedSizeBinary(0)) {
+                add("f:struct-fsb0-child");
+            }
+        }
+        DataType::Dictionary(..) => {
+            if p.kids.first().map(|k| k.len == 0).unwrap_or(false) {
+                add("f:dict-empty-values");
+            }
+        }
+        DataType::FixedSizeList(_, 0) => add("f:fsl0"),
+        DataType::FixedSizeBinary(0) => add("f:fsb0"),
+        _ => {}
+    }
+    for k in &p.kids {
+        features(k, false, out);
+    }
+}
+
+fn kind_tag(dt: &DataType) -> &'static str {
+    use DataType::*;
+    match dt {
+        Null => "null",
+        Boolean => "bool",
+        Utf8 | LargeUtf8 => "utf8",
+        Binary | LargeBinary => "binary",
+        Utf8View | BinaryView => "view",
+        FixedSizeBinary(_) => "fsb",
+        List(_) | LargeList(_) => "list",
+        ListView(_) | LargeListView(_) => "listview",
+        Map(..) => "map",
+        FixedSizeList(..) => "fsl",
+        Struct(_) => "struct",
+        Dictionary(..) => "dict",
+        RunEndEncoded(..) => "ree",
+        Union(_, UnionMode::Dense) => "union-dense",
+        Union(_, UnionMode::Sparse) => "union-sparse",
+        Decimal128(..) | Decimal256(..) | Decimal32(..) | Decimal64(..) => "decimal",
+        Float16 | Float32 | Float64 => "float",
+        Timestamp(..) | Date32 | Date64 | Time32(_) | Time64(_) | Duration(_) | Interval(_) => "temporal",
+        _ => "int",
+    }
+}
+
+// ------------------------------------------------------------------------------ thread locals
+
+thread_local! {
+    static ORACLE: RefCell<Vec<String>> = RefCell::new(vec![]);
+    static TAGS: RefCell<Vec<String>> = RefCell::new(vec![]);
+    /// output of the step applied by the last `run_case`
+    static OUT: RefCell<Option<ArrayRef>> = RefCell::new(None);
+    /// further case lines produced while running a step (batches, other columns)
+    static EXTRA: RefCell<Vec<(String, String)>> = RefCell::new(vec![]);
+}
+fn oracle(s: String) {
+    ORACLE.with(|o| o.borrow_mut().push(s));
+}
+fn tag(s: String) {
+    TAGS.with(|o| o.borrow_mut().push(s));
+}
+
+// ----------------------------------------------------------------------------------- steps
+
+fn rand_mask(rng: &mut Rng, n: usize) -> BooleanArray {
+    let mode = rng.below(6);
+    let nulls = rng.chance(1, 4);
+    let v: Vec<Option<bool>> = (0..n)
+        .map(|i| {
+            if nulls && rng.chance(1, 5) {
+                None
+            } else {
+                Some(match mode {
+                    0 => true,
+                    1 => false,
+                    2 => rng.chance(1, 8),
+                    3 => rng.chance(7, 8),
+                    4 => (i / 3) % 2 == 0,
+                    _ => rng.bool(),
+                })
+            }
+        })
+        .collect();
+    let m = BooleanArray::from(v);
+    // sometimes hand the kernel a mask that is itself a slice at a bit offset
+    if rng.chance(1, 3) {
+        let k = 1 + rng.usize(9);
+        let mut pre: Vec<Option<bool>> = (0..k).map(|_| Some(rng.bool())).collect();
+        pre.extend(m.iter());
+        BooleanArray::from(pre).slice(k, n)
+    } else {
+        m
+    }
+}
+
+fn rotated(a: &ArrayRef, k: usize) -> Result<ArrayRef, ArrowError> {
+    let n = a.len();
+    if n == 0 {
+        return Ok(a.clone());
+    }
+    let k = k % n;
+    arrow_select::concat::concat(&[a.slice(k, n - k).as_ref(), a.slice(0, k).as_ref()])
+}
+
+fn cast_targets(dt: &DataType) -> Vec<DataType> {
+    use DataType::*;
+    let f = |t: DataType| Arc::new(Field::new("item", t, true));
+    let mut v = vec![
+        Int8,
+        Int32,
+        Int64,
+        UInt8,
+        UInt64,
+        Float32,
+        Float64,
+        Boolean,
+        Utf8,
+        LargeUtf8,
+        Utf8View,
+        Binary,
+        LargeBinary,
+        BinaryView,
+        Decimal128(20, 3),
+        Decimal256(40, 2),
+        Date32,
+        Date64,
+        Timestamp(TimeUnit::Microsecond, None),
+        Timestamp(TimeUnit::Second, Some("UTC".into())),
+        Dictionary(Box::new(Int8), Box::new(Utf8)),
+        Dictionary(Box::new(Int32), Box::new(Utf8)),
+        Dictionary(Box::new(UInt8), Box::new(dt.clone())),
+        RunEndEncoded(Arc::new(Field::new("run_ends", Int32, false)), Arc::new(Field::new("values", dt.clone(), true))),
+        RunEndEncoded(Arc::new(Field::new("run_ends", Int16, false)), Arc::new(Field::new("values", Utf8, true))),
+        List(f(dt.clone())),
+        LargeList(f(dt.clone())),
+        FixedSizeList(f(dt.clone()), 1),
+        FixedSizeBinary(2),
+    ];
+    match dt {
+        List(i) | LargeList(i) | ListView(i) | LargeListView(i) => {
+            v.push(List(i.clone()));
+            v.push(LargeList(i.clone()));
+            v.push(ListView(i.clone()));
+            v.push(LargeListView(i.clone()));
+            v.push(List(f(Int64)));
+            v.push(LargeList(f(Utf8)));
+            v.push(FixedSizeList(i.clone(), 2));
+        }
+        FixedSizeList(i, _) => {
+            v.push(List(i.clone()));
+            v.push(LargeList(i.clone()));
+            v.push(FixedSizeList(f(Int64), 2));
+        }
+        Dictionary(_, val) => v.push((**val).clone()),
+        RunEndEncoded(_, val) => v.push(val.data_type().clone()),
+        Struct(fs) => {
+            v.push(Struct(Fields::from(fs.iter().map(|x| Field::new(x.name(), if x.data_type().is_numeric() { Int64 } else { x.data_type().clone() }, true)).collect::<Vec<_>>())));
+        }
+        _ => {}
+    }
+    v.into_iter().filter(|t| t != dt && arrow_cast::can_cast_types(dt, t)).collect()
+}
+
+fn like_pattern(dt: &DataType, pat: &str) -> Option<ArrayRef> {
+    let vt = match dt {
+        DataType::Dictionary(_, v) => (**v).clone(),
+        t => t.clone(),
+    };
+    if !matches!(vt, DataType::Utf8 | DataType::LargeUtf8 | DataType::Utf8View) {
+        return None;
+    }
+    arrow_cast::cast(&StringArray::from(vec![pat]), &vt).ok()
+}
+
+const STEPS: [&str; 22] = [
+    "filter", "take", "concat", "interleave", "zip", "nullif", "shift", "slice", "cast", "sort", "arith", "cmp", "string", "rowconv", "ipc", "json",
+    "csv", "build", "bool", "norm", "filter", "take",
+];
+
+fn no_support(s: &str) -> ArrowError {
+    ArrowError::NotYetImplemented(s.to_string())
+}
+
+/// apply one step to `a` (all randomness from `seed`)
+fn apply(name: &str, seed: u64, a: &ArrayRef, desc: &str) -> Result<ArrayRef, ArrowError> {
+    let mut rng = Rng::new(seed);
+    let rng = &mut rng;
+    let n = a.len();
+    let dt = a.data_type().clone();
+    match name {
+        "filter" => {
+            let m = rand_mask(rng, n);
+            if rng.chance(1, 4) {
+                // optimised predicate path
+                let p = arrow_select::filter::FilterBuilder::new(&m).optimize().build();
+                p.filter(a.as_ref())
+            } else {
+                arrow_select::filter::filter(a.as_ref(), &m)
+            }
+        }
+        "take" => {
+            let m = if n == 0 { rng.usize(3) } else { rng.usize(n + 4) };
+            let with_nulls = n == 0 || rng.chance(1, 3);
+            let idx: Vec<Option<u64>> = (0..m).map(|_| if n == 0 || (with_nulls && rng.chance(1, 4)) { None } else { Some(rng.usize(n) as u64) }).collect();
+            match rng.below(3) {
+                0 => arrow_select::take::take(a.as_ref(), &UInt32Array::from(idx.iter().map(|x| x.map(|v| v as u32)).collect::<Vec<_>>()), None),
+                1 => arrow_select::take::take(a.as_ref(), &Int64Array::from(idx.iter().map(|x| x.map(|v| v as i64)).collect::<Vec<_>>()), None),
+                _ => arrow_select::take::take(a.as_ref(), &UInt8Array::from(idx.iter().map(|x| x.map(|v| v as u8)).collect::<Vec<_>>()), None),
+            }
+        }
+        "concat" => {
+            let k = 1 + rng.usize(3);
+            let parts: Vec<ArrayRef> = (0..k)
+                .map(|_| {
+                    let o = rng.usize(n + 1);
+                    let l = rng.usize(n - o + 1);
+                    a.slice(o, l)
+                })
+                .collect();
+            let refs: Vec<&dyn Array> = parts.iter().map(|x| x.as_ref()).collect();
+            arrow_select::concat::concat(&refs)
+        }
+        "interleave" => {
+            let o = rng.usize(n + 1);
+            let b = a.slice(o, n - o);
+            let arrays: Vec<&dyn Array> = vec![a.as_ref(), b.as_ref()];
+            let m = rng.usize(n + 4);
+            let mut idx = vec![];
+            for _ in 0..m {
+                let k = rng.usize(2);
+                let l = arrays[k].len();
+                if l > 0 {
+                    idx.push((k, rng.usize(l)));
+                }
+            }
+            arrow_select::interleave::interleave(&arrays, &idx)
+        }
+        "zip" => {
+            let m = rand_mask(rng, n);
+            match rng.below(3) {
+                0 if n > 0 => {
+                    let s = Scalar::new(a.slice(rng.usize(n), 1));
+                    arrow_select::zip::zip(&m, &s, a)
+                }
+                1 if n > 0 => {
+                    let s = Scalar::new(a.slice(rng.usize(n), 1));
+                    let t = Scalar::new(a.slice(rng.usize(n), 1));
+                    arrow_select::zip::zip(&m, &s, &t)
+                }
+                _ => {
+                    let r = rotated(a, 1 + rng.usize(3))?;
+                    arrow_select::zip::zip(&m, a, &r)
+                }
+            }
+        }
+        "nullif" => arrow_select::nullif::nullif(a.as_ref(), &rand_mask(rng, n)),
+        "shift" => arrow_select::window::shift(a.as_ref(), rng.range(-(n as i64) - 1, n as i64 + 1)),
+        "slice" => {
+            let o = rng.usize(n + 1);
+            let l = rng.usize(n - o + 1);
+            Ok(a.slice(o, l))
+        }
+        "cast" => {
+            let ts = cast_targets(&dt);
+            if ts.is_empty() {
+                return Err(no_support("cast"));
+            }
+            let to = rng.pick(&ts).clone();
+            tag(format!("cast-to:{}", kind_tag(&to)));
+            let opts = arrow_cast::CastOptions { safe: rng.chance(3, 4), ..Default::default() };
+            arrow_cast::cast_with_options(a.as_ref(), &to, &opts)
+        }
+        "sort" => {
+            let opts = Some(SortOptions { descending: rng.bool(), nulls_first: rng.bool() });
+            match rng.below(3) {
+                0 => arrow_ord::sort::sort(a.as_ref(), opts),
+                1 => arrow_ord::sort::sort_limit(a.as_ref(), opts, Some(rng.usize(n + 2))),
+                _ => {
+                    let idx = arrow_ord::sort::sort_to_indices(a.as_ref(), opts, None)?;
+                    arrow_select::take::take(a.as_ref(), &idx, None)
+                }
+            }
+        }
+        "arith" => match rng.below(4) {
+            0 => arrow_arith::numeric::add_wrapping(a, a),
+            1 => arrow_arith::numeric::neg_wrapping(a.as_ref()),
+            2 => arrow_arith::numeric::mul_wrapping(a, &rotated(a, 1)?),
+            _ => arrow_arith::numeric::sub_wrapping(a, &rotated(a, 2)?),
+        },
+        "cmp" => {
+            let r = rotated(a, 1 + rng.usize(2))?;
+            let b = match rng.below(4) {
+                0 => arrow_ord::cmp::eq(a, &r)?,
+                1 => arrow_ord::cmp::lt(a, &r)?,
+                2 => arrow_ord::cmp::distinct(a, &r)?,
+                _ if n > 0 => arrow_ord::cmp::gt_eq(a, &Scalar::new(a.slice(rng.usize(n), 1)))?,
+                _ => arrow_ord::cmp::neq(a, a)?,
+            };
+            Ok(Arc::new(b))
+        }
+        "string" => match rng.below(5) {
+            0 => arrow_string::substring::substring(a.as_ref(), rng.range(-3, 3), if rng.bool() { Some(rng.below(4)) } else { None }),
+            1 => arrow_string::concat_elements::concat_elements_dyn(a.as_ref(), rotated(a, 1)?.as_ref()),
+            2 => {
+                let p = like_pattern(&dt, *rng.pick(&["a%", "%z", "_", "%\u{e9}%", "", "%"])).ok_or_else(|| no_support("like"))?;
+                Ok(Arc::new(arrow_string::like::like(a, &Scalar::new(p))?))
+            }
+            3 => arrow_string::length::length(a.as_ref()),
+            _ => {
+                let p = like_pattern(&dt, *rng.pick(&["a", "z", "\u{20ac}"])).ok_or_else(|| no_support("contains"))?;
+                Ok(Arc::new(arrow_string::like::contains(a, &Scalar::new(p))?))
+            }
+        },
+        "rowconv" => {
+            let conv = arrow_row::RowConverter::new(vec![arrow_row::SortField::new_with_options(dt.clone(), SortOptions { descending: rng.bool(), nulls_first: rng.bool() })])?;
+            let rows = conv.convert_columns(&[a.clone()])?;
+            let mut out = conv.convert_rows(rows.iter())?;
+            Ok(out.remove(0))
+        }
+        "ipc" => {
+            let other = rotated(a, 1)?;
+            let schema = Arc::new(Schema::new(vec![Field::new("c0", dt.clone(), true), Field::new("c1", dt.clone(), true)]));
+            let batch = RecordBatch::try_new(schema.clone(), vec![a.clone(), other])?;
+            let mut bytes: Vec<u8> = vec![];
+            if rng.bool() {
+                let mut w = arrow_ipc::writer::StreamWriter::try_new(&mut bytes, &schema)?;
+                w.write(&batch)?;
+                w.finish()?;
+                drop(w);
+                let mut r = arrow_ipc::reader::StreamReader::try_new(std::io::Cursor::new(bytes), None)?;
+                let b = r.next().ok_or_else(|| no_support("ipc: no batch"))??;
+                emit_batch(&b, desc, "ipc-stream");
+                Ok(b.column(0).clone())
+            } else {
+                let mut w = arrow_ipc::writer::FileWriter::try_new(&mut bytes, &schema)?;
+                w.write(&batch)?;
+                w.finish()?;
+                drop(w);
+                let mut r = arrow_ipc::reader::FileReader::try_new(std::io::Cursor::new(bytes), None)?;
+                let b = r.next().ok_or_else(|| no_support("ipc: no batch"))??;
+                emit_batch(&b, desc, "ipc-file");
+                Ok(b.column(0).clone())
+            }
+        }
+        "json" => step_json(rng, desc),
+        "csv" => step_csv(rng, desc),
+        "build" => step_build(rng),
+        "bool" => match rng.below(3) {
+            0 => Ok(Arc::new(arrow_arith::boolean::is_null(a.as_ref())?)),
+            1 => Ok(Arc::new(arrow_arith::boolean::is_not_null(a.as_ref())?)),
+            _ => match a.as_boolean_opt() {
+                Some(b) => Ok(Arc::new(arrow_arith::boolean::not(b)?)),
+                None => Err(no_support("not")),
+            },
+        },
+        "norm" => {
+            let d = a.to_data();
+            match rng.below(3) {
+                0 => Ok(make_array(d)),
+                1 => {
+                    let o = rng.usize(n + 1);
+                    let l = rng.usize(n - o + 1);
+                    Ok(make_array(d.slice(o, l)))
+                }
+                _ => Ok(make_array(ArrayData::try_new(d.data_type().clone(), d.len(), d.nulls().map(|x| x.inner().sliced()), d.offset(), d.buffers().to_vec(), d.child_data().to_vec())?)),
+            }
+        }
+        _ => Err(no_support("unknown step")),
+    }
+}
+
+/// a RecordBatch handed out by a reader: check it against its schema here, and send it to the Lean side
+fn emit_batch(b: &RecordBatch, desc: &str, what: &str) {
+    let schema = b.schema();
+    let mut bad = vec![];
+    if schema.fields().len() != b.num_columns() {
+        bad.push("column-count".to_string());
+    }
+    for (i, (f, c)) in schema.fields().iter().zip(b.columns()).enumerate() {
+        if f.data_type() != c.data_type() {
+            bad.push(format!("type:{}", i));
+        }
+        if c.len() != b.num_rows() {
+            bad.push(format!("len:{}", i));
+        }
+        if !f.is_nullable() && c.logical_nulls().map(|n| n.null_count()).unwrap_or(0) > 0 {
+            bad.push(format!("nullability:{}", i));
+        }
+    }
+    if !bad.is_empty() {
+        oracle(format!("batch-mismatch:{}:{}", what, bad.join(",")));
+    }
+    if b.num_rows() > MAX_ROWS || schema.fields().iter().any(|f| is_ext(f.data_type())) {
+        return;
+    }
+    let r = catch_unwind(AssertUnwindSafe(|| {
+        let fields = if schema.fields().is_empty() {
+            "-".to_string()
+        } else {
+            schema.fields().iter().map(|f| format!("{}{}", nbc(f.is_nullable()), phys_ty(f.data_type()))).collect::<Vec<_>>().join("+")
+        };
+        let cols = if b.num_columns() == 0 { "-".to_string() } else { b.columns().iter().map(|c| show_phys(&phys_of(&c.to_data()))).collect::<Vec<_>>().join("+") };
+        format!("C01 batch {}/{} {} {} {}", desc, what, b.num_rows(), fields, cols)
+    }));
+    match r {
+        Ok(line) => EXTRA.with(|e| e.borrow_mut().push((line, format!("op:batch src:{} nt", what)))),
+        Err(_) => oracle(format!("panic:dump-batch:{}", what)),
+    }
+    // every other column is a produced array too
+    for (i, c) in b.columns().iter().enumerate().skip(1) {
+        emit_array(c, &format!("{}/{}.col{}", desc, what, i));
+    }
+}
+
+/// an additional produced array (not the one the pipeline continues with): validate + dump
+fn emit_array(c: &ArrayRef, desc: &str) {
+    let r = catch_unwind(AssertUnwindSafe(|| {
+        let d = c.to_data();
+        if let Err(e) = d.validate_full() {
+            oracle(format!("out-validate_full-err:{}:{}", desc.rsplit('/').next().unwrap_or(""), err_class(&e)));
+        }
+        if d.len() > MAX_ROWS {
+            return None;
+        }
+        let op = if is_ext(d.data_type()) { "stepx" } else { "step" };
+        Some(format!("C01 {} {} end {} {}", op, desc, lt_token(d.data_type()), show_phys(&phys_of(&d))))
+    }));
+    match r {
+        Ok(Some(line)) => EXTRA.with(|e| e.borrow_mut().push((line, "extra-column".to_string()))),
+        Ok(None) => {}
+        Err(_) => oracle("panic:dump-extra".to_string()),
+    }
+}
+
+fn err_class(e: &ArrowError) -> &'static str {
+    match e {
+        ArrowError::InvalidArgumentError(_) => "invalid-arg",
+        ArrowError::ComputeError(_) => "compute",
+        ArrowError::CastError(_) => "cast",
+        ArrowError::NotYetImplemented(_) => "not-impl",
+        ArrowError::SchemaError(_) => "schema",
+        ArrowError::ParseError(_) => "parse",
+        ArrowError::JsonError(_) => "json",
+        ArrowError::CsvError(_) => "csv",
+        ArrowError::IpcError(_) => "ipc",
+        ArrowError::OffsetOverflowError(_) => "offset-overflow",
+        ArrowError::DictionaryKeyOverflowError => "key-overflow",
+        ArrowError::RunEndIndexOverflowError => "runend-overflow",
+        ArrowError::ArithmeticOverflow(_) => "overflow",
+        ArrowError::DivideByZero => "div0",
+        _ => "other",
+    }
+}
+
+const WORDS: [&str; 8] = ["a", "zz", "\u{e9}t\u{e9}", "\u{20ac}", "x\u{1d11e}", "", "null", "12"];
+
+fn step_json(rng: &mut Rng, desc: &str) -> Result<ArrayRef, ArrowError> {
+    use DataType::*;
+    let item = |t: DataType| Arc::new(Field::new("item", t, true));
+    let cands: Vec<(DataType, u8)> = vec![
+        (Int32, 0),
+        (Int64, 0),
+        (Float64, 1),
+        (Boolean, 2),
+        (Utf8, 3),
+        (LargeUtf8, 3),
+        (Utf8View, 3),
+        (List(item(Int32)), 4),
+        (Struct(Fields::from(vec![Field::new("x", Int32, true), Field::new("y", Utf8, true)])), 5),
+        (Date32, 0),
+        (Timestamp(TimeUnit::Millisecond, None), 0),
+        (Decimal128(10, 2), 0),
+        (List(item(Utf8)), 6),
+        (Map(Arc::new(Field::new("entries", Struct(Fields::from(vec![Field::new("keys", Utf8, false), Field::new("values", Int32, true)])), false)), false), 7),
+    ];
+    let k = 1 + rng.usize(3);
+    let cols: Vec<(DataType, u8)> = (0..k).map(|_| rng.pick(&cands).clone()).collect();
+    let schema = Arc::new(Schema::new(cols.iter().enumerate().map(|(i, (t, _))| Field::new(format!("c{}", i), t.clone(), true)).collect::<Vec<_>>()));
+    let rows = rng.usize(8);
+    let mut text = String::new();
+    let val = |rng: &mut Rng, kind: u8| -> String {
+        match kind {
+            0 => format!("{}", rng.range(-50, 5000)),
+            1 => format!("{}.{}", rng.range(-9, 9), rng.below(100)),
+            2 => if rng.bool() { "true".into() } else { "false".into() },
+            3 => format!("\"{}\"", rng.pick(&WORDS)),
+            4 => format!("[{}]", (0..rng.usize(4)).map(|_| if rng.chance(1, 5) { "null".to_string() } else { rng.below(100).to_string() }).collect::<Vec<_>>().join(",")),
+            5 => match rng.below(3) {
+                0 => "{}".to_string(),
+                1 => format!("{{\"x\":{}}}", rng.below(9)),
+                _ => format!("{{\"y\":\"{}\",\"x\":null}}", rng.pick(&WORDS)),
+            },
+            6 => format!("[{}]", (0..rng.usize(3)).map(|_| format!("\"{}\"", rng.pick(&WORDS))).collect::<Vec<_>>().join(",")),
+            _ => format!("{{{}}}", (0..rng.usize(3)).map(|j| format!("\"k{}\":{}", j, rng.below(9))).collect::<Vec<_>>().join(",")),
+        }
+    };
+    for _ in 0..rows {
+        let mut parts = vec![];
+        for (i, (_, kind)) in cols.iter().enumerate() {
+            match rng.below(6) {
+                0 => {}
+                1 => parts.push(format!("\"c{}\":null", i)),
+                _ => parts.push(format!("\"c{}\":{}", i, val(rng, *kind))),
+            }
+        }
+        text.push_str(&format!("{{{}}}\n", parts.join(",")));
+    }
+    let mut reader = arrow_json::ReaderBuilder::new(schema).with_batch_size(1 + rng.usize(8)).build(std::io::Cursor::new(text.into_bytes()))?;
+    let mut last: Option<RecordBatch> = None;
+    for b in &mut reader {
+        let b = b?;
+        emit_batch(&b, desc, "json");
+        last = Some(b);
+    }
+    match last {
+        Some(b) => Ok(b.column(0).clone()),
+        None => Err(no_support("json: no batch")),
+    }
+}
+
+fn step_csv(rng: &mut Rng, desc: &str) -> Result<ArrayRef, ArrowError> {
+    use DataType::*;
+    let cands: Vec<(DataType, u8)> = vec![
+        (Int32, 0),
+        (Int64, 0),
+        (UInt8, 0),
+        (Float64, 1),
+        (Boolean, 2),
+        (Utf8, 3),
+        (LargeUtf8, 3),
+        (Utf8View, 3),
+        (Date32, 4),
+        (Timestamp(TimeUnit::Second, None), 5),
+        (Decimal128(10, 2), 1),
+        (Dictionary(Box::new(Int8), Box::new(Utf8)), 3),
+    ];
+    let k = 1 + rng.usize(3);
+    let cols: Vec<(DataType, u8)> = (0..k).map(|_| rng.pick(&cands).clone()).collect();
+    let schema = Arc::new(Schema::new(cols.iter().enumerate().map(|(i, (t, _))| Field::new(format!("c{}", i), t.clone(), true)).collect::<Vec<_>>()));
+    let rows = rng.usize(8);
+    let mut text = String::new();
+    for _ in 0..rows {
+        let mut parts = vec![];
+        for (_, kind) in cols.iter() {
+            parts.push(if rng.chance(1, 5) {
+                String::new()
+            } else {
+                match kind {
+                    0 => format!("{}", rng.range(0, 200)),
+                    1 => format!("{}.{}", rng.range(-9, 9), rng.below(100)),
+                    2 => if rng.bool() { "true".into() } else { "false".into() },
+                    3 => format!("\"{}\"", rng.pick(&WORDS)),
+                    4 => format!("20{:02}-0{}-1{}", rng.below(30), 1 + rng.below(9), rng.below(9)),
+                    _ => format!("20{:02}-0{}-1{}T0{}:00:00", rng.below(30), 1 + rng.below(9), rng.below(9), rng.below(9)),
+                }
+            });
+        }
+        text.push_str(&parts.join(","));
+        text.push('\n');
+    }
+    let mut reader = arrow_csv::ReaderBuilder::new(schema).with_header(false).with_batch_size(1 + rng.usize(8)).build(std::io::Cursor::new(text.into_bytes()))?;
+    let mut last: Option<RecordBatch> = None;
+    for b in &mut reader {
+        let b = b?;
+        emit_batch(&b, desc, "csv");
+        last = Some(b);
+    }
+    match last {
+        Some(b) => Ok(b.column(0).clone()),
+        None => Err(no_support("csv: no batch")),
+    }
+}
+
+fn step_build(rng: &mut Rng) -> Result<ArrayRef, ArrowError> {
+    let n = rng.usize(12);
+    let null = |rng: &mut Rng| rng.chance(1, 4);
+    let kind = rng.below(14);
+    tag(format!("builder:{}", kind));
+    Ok(match kind {
+        0 => {
+            let mut b = Int32Builder::new();
+            for _ in 0..n {
+                if null(rng) { b.append_null() } else { b.append_value(rng.range(-5, 5) as i32) }
+            }
+            if rng.bool() {
+                let _ = b.finish_cloned();
+                b.append_value(7);
+            }
+            Arc::new(b.finish())
+        }
+        1 => {
+            let mut b = StringBuilder::new();
+            for _ in 0..n {
+                if null(rng) { b.append_null() } else { b.append_value(rng.pick(&WORDS)) }
+            }
+            if rng.bool() {
+                let first = b.finish();
+                b.append_array(&first)?;
+                b.append_value("tail");
+            }
+            Arc::new(b.finish())
+        }
+        2 => {
+            let mut b = BooleanBuilder::new();
+            for _ in 0..n {
+                if null(rng) { b.append_null() } else { b.append_value(rng.bool()) }
+            }
+            Arc::new(b.finish())
+        }
+        3 => {
+            let mut b = ListBuilder::new(Int32Builder::new());
+            for _ in 0..n {
+                for _ in 0..rng.usize(3) {
+                    if null(rng) { b.values().append_null() } else { b.values().append_value(rng.range(0, 9) as i32) }
+                }
+                b.append(!null(rng));
+            }
+            Arc::new(b.finish())
+        }
+        4 => {
+            let mut b = FixedSizeListBuilder::new(Int16Builder::new(), 2);
+            for _ in 0..n {
+                b.values().append_value(1);
+                b.values().append_option(if null(rng) { None } else { Some(2) });
+                b.append(!null(rng));
+            }
+            Arc::new(b.finish())
+        }
+        5 => {
+            let mut b = StringDictionaryBuilder::<Int8Type>::new();
+            for _ in 0..n {
+                if null(rng) { b.append_null() } else { b.append(rng.pick(&WORDS))?; }
+            }
+            Arc::new(b.finish())
+        }
+        6 => {
+            let mut b = StringRunBuilder::<Int32Type>::new();
+            for _ in 0..n {
+                if null(rng) { b.append_null() } else { b.append_value(rng.pick(&["a", "a", "b"])) }
+            }
+            Arc::new(b.finish())
+        }
+        7 => {
+            let mut b = UnionBuilder::new_dense();
+            for _ in 0..n {
+                match rng.below(3) {
+                    0 => b.append::<Int32Type>("i", rng.range(0, 9) as i32)?,
+                    1 => b.append::<Float64Type>("f", 1.5)?,
+                    _ => b.append_null::<Int32Type>("i")?,
+                }
+            }
+            if n == 0 {
+                b.append::<Int32Type>("i", 1)?;
+            }
+            Arc::new(b.build()?)
+        }
+        8 => {
+            let mut b = UnionBuilder::new_sparse();
+            for _ in 0..n.max(1) {
+                match rng.below(3) {
+                    0 => b.append::<Int32Type>("i", rng.range(0, 9) as i32)?,
+                    1 => b.append::<Float64Type>("f", 2.5)?,
+                    _ => b.append_null::<Float64Type>("f")?,
+                }
+            }
+            Arc::new(b.build()?)
+        }
+        9 => {
+            let mut b = MapBuilder::new(None, StringBuilder::new(), Int32Builder::new());
+            for _ in 0..n {
+                for j in 0..rng.usize(3) {
+                    b.keys().append_value(format!("k{}", j));
+                    b.values().append_option(if null(rng) { None } else { Some(j as i32) });
+                }
+                b.append(!null(rng))?;
+            }
+            Arc::new(b.finish())
+        }
+        10 => {
+            let mut b = StringViewBuilder::new();
+            for _ in 0..n {
+                if null(rng) { b.append_null() } else { b.append_value(rng.pick(&["short", "a string longer than twelve bytes", "\u{20ac}"])) }
+            }
+            Arc::new(b.finish())
+        }
+        11 => {
+            let mut b = StructBuilder::from_fields(vec![Field::new("a", DataType::Int32, true), Field::new("b", DataType::Utf8, true)], n);
+            for _ in 0..n {
+                b.field_builder::<Int32Builder>(0).unwrap().append_option(if null(rng) { None } else { Some(3) });
+                b.field_builder::<StringBuilder>(1).unwrap().append_option(if null(rng) { None } else { Some("s") });
+                b.append(!null(rng));
+            }
+            Arc::new(b.finish())
+        }
+        12 => {
+            let mut b = FixedSizeBinaryBuilder::new(3);
+            for _ in 0..n {
+                if null(rng) { b.append_null() } else { b.append_value(rng.bytes(3))?; }
+            }
+            Arc::new(b.finish())
+        }
+        _ => {
+            let mut b = Decimal128Builder::new().with_precision_and_scale(10, 2)?;
+            for _ in 0..n {
+                if null(rng) { b.append_null() } else { b.append_value(rng.range(-99999, 99999) as i128) }
+            }
+            Arc::new(b.finish())
+        }
+    })
+}
+
+// ------------------------------------------------------------------------------- run_case
+
+fn format_all(a: &dyn Array) {
+    for i in 0..a.len().min(2 * MAX_ROWS) {
+        let _ = arrow_cast::display::array_value_to_string(a, i);
+    }
+}
+
+fn run_case(line: &str) -> String {
+    let t: Vec<&str> = line.split(' ').collect();
+    assert_eq!(t[0], "C01");
+    OUT.with(|o| *o.borrow_mut() = None);
+    match t[1] {
+        "batch" => "wf=1".into(),
+        "step" | "stepx" => {
+            let (desc, step, lt, dump) = (t[2], t[3], t[4], t[5]);
+            let dt = lt_parse(lt);
+            let mut c = Cur { s: dump.as_bytes(), i: 0 };
+            let p = parse_phys(&mut c, &dt);
+            assert_eq!(c.i, dump.len());
+            let mut fs = vec![];
+            features(&p, true, &mut fs);
+            for f in fs.iter() {
+                tag(f.to_string());
+            }
+            tag(format!("ty:{}", kind_tag(&dt)));
+            let (name, seed) = match step.split_once(':') {
+                Some((n, s)) => (n, s.parse::<u64>().unwrap_or(0)),
+                None => (step, 0),
+            };
+            tag(format!("op:{}", name));
+            // 1. the dumped layout must be valid for the real validator
+            let data = match catch_unwind(AssertUnwindSafe(|| {
+                let d = build(&p);
+                let v = d.validate_full();
+                (d, v)
+            })) {
+                Ok((d, Ok(()))) => d,
+                Ok((_, Err(e))) => {
+                    oracle(format!("in-validate_full-err:{}", err_class(&e)));
+                    tag("res:in-invalid".into());
+                    return "wf=1".into();
+                }
+                Err(_) => {
+                    oracle("panic:build".into());
+                    return "wf=1".into();
+                }
+            };
+            // 2. typed array
+            let arr = match catch_unwind(AssertUnwindSafe(|| {
+                let a = make_array(data);
+                format_all(a.as_ref());
+                a
+            })) {
+                Ok(a) => a,
+                Err(_) => {
+                    oracle("panic:make_array".into());
+                    tag("res:panic".into());
+                    classify_panic("make_array", &fs, &dt);
+                    return "wf=1".into();
+                }
+            };
+            if name == "end" {
+                tag("res:end".into());
+                return "wf=1".into();
+            }
+            // 3. the step
+            match catch_unwind(AssertUnwindSafe(|| apply(name, seed, &arr, desc))) {
+                Err(_) => {
+                    oracle(format!("panic:{}", name));
+                    tag("res:panic".into());
+                    classify_panic(name, &fs, &dt);
+                }
+                Ok(Err(e)) => {
+                    tag(format!("res:err:{}", err_class(&e)));
+                }
+                Ok(Ok(out)) => {
+                    tag("res:ok".into());
+                    // 4. the output must be valid for the real validator, and usable
+                    match catch_unwind(AssertUnwindSafe(|| {
+                        let v = out.to_data().validate_full();
+                        format_all(out.as_ref());
+                        let _ = out.logical_nulls().map(|x| x.null_count());
+                        v
+                    })) {
+                        Ok(Ok(())) => {}
+                        Ok(Err(e)) => oracle(format!("out-validate_full-err:{}:{}", name, err_class(&e))),
+                        Err(_) => {
+                            oracle(format!("panic:use-output:{}", name));
+                            classify_panic("use-output", &fs, &dt);
+                        }
+                    }
+                    OUT.with(|o| *o.borrow_mut() = Some(out));
+                }
+            }
+            "wf=1".into()
+        }
+        _ => "bad-op".into(),
+    }
+}
+
+/// precise tags for the panics that are known defects (keys of known_findings.txt)
+fn classify_panic(step: &str, fs: &[&'static str], _dt: &DataType) {
+    let has = |f: &str| fs.contains(&f);
+    if has("f:ree-runends-off") {
+        tag(format!("kf:ree-runends-child-offset:{}", step));
+    }
+    if has("f:struct-off-nested") && step == "make_array" {
+        tag("kf:make-array-nested-struct-offset".into());
+    }
+    if (has("f:struct-null-child") || has("f:struct-fsb0-child") || has("f:struct-nofields")) && matches!(step, "take" | "filter" | "sort" | "interleave" | "zip" | "nullif" | "shift") {
+        tag(format!("kf:select-struct-zero-width-child:{}", step));
+    }
+}
+
+// ------------------------------------------------------------------------------- generator
+
+fn put_int(v: i64, w: usize, out: &mut Vec<u8>) {
+    out.extend_from_slice(&v.to_le_bytes()[..w]);
+}
+fn set_int(b: &mut [u8], i: usize, w: usize, v: i64) {
+    b[i * w..i * w + w].copy_from_slice(&v.to_le_bytes()[..w]);
+}
+fn bit(b: &[u8], i: usize) -> bool {
+    i / 8 < b.len() && (b[i / 8] >> (i % 8)) & 1 == 1
+}
+
+const CHARS: [&str; 6] = ["a", "z", "\u{e9}", "\u{20ac}", "\u{1d11e}", "~"];
+
+fn can_null(t: &DataType) -> bool {
+    !matches!(t, DataType::Null | DataType::Union(..) | DataType::RunEndEncoded(..))
+}
+
+/// a valid layout of `n` slots of type `dt` behind `off` unused leading slots.  `exotic` adds child
+/// offsets and slack at every level (layouts only reachable through `ArrayData::try_new`).
+fn gen_layout(rng: &mut Rng, dt: &DataType, n: usize, off: usize, no_nulls: bool, exotic: bool) -> Phys {
+    use DataType::*;
+    let total = off + n;
+    let extra = |rng: &mut Rng| if rng.chance(1, 4) { 1 + rng.usize(2) } else { 0 };
+    let koff = |rng: &mut Rng| if exotic && rng.chance(1, 3) { 1 + rng.usize(3) } else { 0 };
+    // view / list-view types: built by the typed API, then windowed
+    if matches!(dt, Utf8View | BinaryView | ListView(_) | LargeListView(_)) {
+        let arr: ArrayRef = match dt {
+            Utf8View => {
+                let mut b = StringViewBuilder::new().with_fixed_block_size(32);
+                for _ in 0..total {
+                    if !no_nulls && rng.chance(1, 4) { b.append_null() } else { b.append_value(rng.pick(&["", "ab", "twelve bytes", "thirteen bytes", "a much longer string with \u{20ac} inside", "\u{1d11e}"])) }
+                }
+                Arc::new(b.finish())
+            }
+            BinaryView => {
+                let mut b = BinaryViewBuilder::new();
+                for _ in 0..total {
+                    if !no_nulls && rng.chance(1, 4) { b.append_null() } else { b.append_value({ let k = rng.usize(20); rng.bytes(k) }) }
+                }
+                Arc::new(b.finish())
+            }
+            ListView(f) | LargeListView(f) => {
+                let m = 1 + rng.usize(6);
+                let child = make_array(build(&gen_layout(rng, f.data_type(), m, 0, !f.is_nullable(), false)));
+                let mut offs: Vec<i64> = vec![];
+                let mut sizes: Vec<i64> = vec![];
+                for _ in 0..total {
+                    let o = rng.usize(m + 1);
+                    offs.push(o as i64);
+                    sizes.push(rng.usize(m - o + 1) as i64);
+                }
+                let nulls = if !no_nulls && rng.bool() { Some(NullBuffer::from((0..total).map(|_| rng.chance(3, 4)).collect::<Vec<_>>())) } else { None };
+                if matches!(dt, ListView(_)) {
+                    Arc::new(ListViewArray::try_new(f.clone(), ScalarBuffer::from(offs.iter().map(|x| *x as i32).collect::<Vec<_>>()), ScalarBuffer::from(sizes.iter().map(|x| *x as i32).collect::<Vec<_>>()), child, nulls).expect("listview"))
+                } else {
+                    Arc::new(LargeListViewArray::try_new(f.clone(), ScalarBuffer::from(offs), ScalarBuffer::from(sizes), child, nulls).expect("listview"))
+                }
+            }
+            _ => unreachable!(),
+        };
+        let mut p = phys_of(&arr.to_data());
+        p.offset = off;
+        p.len = n;
+        p.nc = None;
+        return p;
+    }
+    let nulls = if can_null(dt) && !no_nulls && rng.chance(1, 2) {
+        let mut b = { let e = extra(rng); rng.bytes((total + 7) / 8 + e) };
+        if rng.chance(1, 5) {
+            for x in b.iter_mut() {
+                *x = 0xff;
+            }
+        }
+        Some(b)
+    } else {
+        None
+    };
+    let mut p = Phys { dt: dt.clone(), len: n, offset: off, nulls, nc: None, bufs: vec![], kids: vec![] };
+    if let Some(w) = prim_width(dt) {
+        let mut b = { let e = extra(rng); rng.bytes(total * w + e) };
+        match dt {
+            Decimal128(pr, _) | Decimal256(pr, _) => {
+                // stay inside the declared precision (validate_full checks it, also under nulls)
+                let lim = 10i64.pow((*pr as u32).min(9));
+                for i in 0..total {
+                    let v = rng.range(-lim + 1, lim - 1);
+                    let fill = if v < 0 { 0xff } else { 0 };
+                    for j in 0..w {
+                        b[i * w + j] = if j < 8 { v.to_le_bytes()[j] } else { fill };
+                    }
+                }
+            }
+            Int8 | Int16 | Int32 | Int64 | UInt8 | UInt16 | UInt32 | UInt64 if rng.bool() => {
+                // small values (ties for sort, no key overflow on dictionary casts)
+                for i in 0..total {
+                    set_int(&mut b, i, w, rng.range(-3, 6).max(if matches!(dt, UInt8 | UInt16 | UInt32 | UInt64) { 0 } else { -3 }));
+                }
+            }
+            _ => {}
+        }
+        p.bufs.push(b);
+        return p;
+    }
+    match dt {
+        Null => {}
+        Boolean => p.bufs.push({ let e = extra(rng); rng.bytes((total + 7) / 8 + e) }),
+        FixedSizeBinary(w) => p.bufs.push({ let e = extra(rng); rng.bytes(total * *w as usize + e) }),
+        Utf8 | LargeUtf8 | Binary | LargeBinary => {
+            let w = if matches!(dt, LargeUtf8 | LargeBinary) { 8 } else { 4 };
+            let mut data: Vec<u8> = vec![];
+            for _ in 0..rng.usize(3) {
+                data.push(b'#');
+            }
+            let mut offs = vec![];
+            put_int(data.len() as i64, w, &mut offs);
+            for _ in 0..total {
+                for _ in 0..rng.usize(4) {
+                    if matches!(dt, Utf8 | LargeUtf8) {
+                        data.extend_from_slice(rng.pick(&CHARS).as_bytes());
+                    } else {
+                        data.push(rng.next_u64() as u8);
+                    }
+                }
+                put_int(data.len() as i64, w, &mut offs);
+            }
+            for _ in 0..extra(rng) {
+                data.push(b'#');
+            }
+            if total == 0 && rng.chance(1, 3) {
+                offs.clear();
+            }
+            p.bufs.push(offs);
+            p.bufs.push(data);
+        }
+        List(f) | LargeList(f) | Map(f, _) => {
+            let w = if matches!(dt, LargeList(_)) { 8 } else { 4 };
+            let mut offs = vec![];
+            let mut pos = rng.usize(3);
+            put_int(pos as i64, w, &mut offs);
+            for _ in 0..total {
+                pos += rng.usize(4);
+                put_int(pos as i64, w, &mut offs);
+            }
+            let m = pos + extra(rng);
+            if total == 0 && rng.chance(1, 3) {
+                offs.clear();
+            }
+            p.bufs.push(offs);
+            p.kids.push({ let ko = koff(rng); gen_layout(rng, f.data_type(), m, ko, !f.is_nullable(), exotic) });
+        }
+        FixedSizeList(f, k) => {
+            let m = total * *k as usize + extra(rng);
+            p.kids.push({ let ko = koff(rng); gen_layout(rng, f.data_type(), m, ko, !f.is_nullable(), exotic) });
+        }
+        Struct(fs) => {
+            for f in fs.iter() {
+                let m = total + extra(rng);
+                p.kids.push({ let ko = koff(rng); gen_layout(rng, f.data_type(), m, ko, !f.is_nullable(), exotic) });
+            }
+        }
+        Dictionary(k, v) => {
+            let kw = prim_width(k).unwrap();
+            let m = 1 + rng.usize(4);
+            let mut keys = vec![];
+            for _ in 0..total {
+                put_int(rng.usize(m) as i64, kw, &mut keys);
+            }
+            if let Some(nb) = &p.nulls {
+                for i in 0..n {
+                    if !bit(nb, off + i) && rng.chance(1, 2) {
+                        set_int(&mut keys, off + i, kw, 100);
+                    }
+                }
+            }
+            for _ in 0..extra(rng) {
+                keys.extend_from_slice(&vec![0x7f; kw]);
+            }
+            p.bufs.push(keys);
+            p.kids.push({ let ko = koff(rng); gen_layout(rng, v, m, ko, false, exotic) });
+        }
+        RunEndEncoded(r, v) => {
+            let rw = prim_width(r.data_type()).unwrap();
+            let mut ends = vec![];
+            let mut e = 0usize;
+            let mut runs = 0;
+            while e < total || (runs == 0 && rng.bool()) {
+                e += 1 + rng.usize(4);
+                put_int(e as i64, rw, &mut ends);
+                runs += 1;
+            }
+            let ro = if exotic && rng.chance(1, 6) { 1 } else { 0 };
+            let mut re_buf = vec![0u8; ro * rw];
+            re_buf.extend_from_slice(&ends);
+            p.kids.push(Phys { dt: r.data_type().clone(), len: runs, offset: ro, nulls: None, nc: None, bufs: vec![re_buf], kids: vec![] });
+            let vo = koff(rng);
+            p.kids.push(gen_layout(rng, v.data_type(), runs, vo, false, exotic));
+        }
+        Union(fs, mode) => {
+            let dense = *mode == UnionMode::Dense;
+            let fl: Vec<(i8, FieldRef)> = fs.iter().map(|(i, f)| (i, f.clone())).collect();
+            let mut ids = vec![];
+            let mut offs = vec![];
+            let lens: Vec<usize> = fl.iter().map(|_| if dense { 1 + rng.usize(4) } else { total + extra(rng) }).collect();
+            for _ in 0..total {
+                let k = rng.usize(fl.len());
+                ids.push(fl[k].0 as u8);
+                if dense {
+                    put_int(rng.usize(lens[k]) as i64, 4, &mut offs);
+                }
+            }
+            for _ in 0..extra(rng) {
+                ids.push(fl[0].0 as u8);
+                if dense {
+                    put_int(0, 4, &mut offs);
+                }
+            }
+            p.bufs.push(ids);
+            if dense {
+                p.bufs.push(offs);
+            }
+            for (k, (_, f)) in fl.iter().enumerate() {
+                p.kids.push({ let ko = koff(rng); gen_layout(rng, f.data_type(), lens[k], ko, false, exotic) });
+            }
+        }
+        _ => panic!("gen_layout: unsupported {dt}"),
+    }
+    p
+}
+
+fn type_grid() -> Vec<(&'static str, DataType)> {
+    use DataType::*;
+    let item = |t: DataType, n: bool| Arc::new(Field::new("item", t, n));
+    let uf = |fs: Vec<(i8, DataType)>| UnionFields::try_new(fs.iter().map(|x| x.0), fs.iter().enumerate().map(|(k, x)| Field::new(format!("u{}", k), x.1.clone(), true))).unwrap();
+    vec![
+        ("null", Null),
+        ("bool", Boolean),
+        ("i8", Int8),
+        ("i16", Int16),
+        ("i32", Int32),
+        ("i64", Int64),
+        ("u8", UInt8),
+        ("u16", UInt16),
+        ("u32", UInt32),
+        ("u64", UInt64),
+        ("f32", Float32),
+        ("f64", Float64),
+        ("dec128", Decimal128(10, 2)),
+        ("dec256", Decimal256(20, 0)),
+        ("date32", Date32),
+        ("date64", Date64),
+        ("ts-ms-utc", Timestamp(TimeUnit::Millisecond, Some("UTC".into()))),
+        ("ts-ns", Timestamp(TimeUnit::Nanosecond, None)),
+        ("utf8", Utf8),
+        ("large-utf8", LargeUtf8),
+        ("binary", Binary),
+        ("large-binary", LargeBinary),
+        ("fsb3", FixedSizeBinary(3)),
+        ("fsb0", FixedSizeBinary(0)),
+        ("list-i32", List(item(Int32, true))),
+        ("list-i32-nn", List(item(Int32, false))),
+        ("large-list-utf8", LargeList(item(Utf8, true))),
+        ("list-list", List(item(List(item(Int8, true)), true))),
+        ("fsl2-i16", FixedSizeList(item(Int16, true), 2)),
+        ("fsl0", FixedSizeList(item(Int32, true), 0)),
+        ("struct", Struct(Fields::from(vec![Field::new("a", Int32, true), Field::new("b", Utf8, true)]))),
+        ("struct-nn", Struct(Fields::from(vec![Field::new("a", Int64, false), Field::new("b", Boolean, true)]))),
+        ("struct-nested", Struct(Fields::from(vec![Field::new("s", Struct(Fields::from(vec![Field::new("x", Int32, true)])), true), Field::new("l", List(item(Int32, true)), true)]))),
+        ("struct-null", Struct(Fields::from(vec![Field::new("n", Null, true), Field::new("a", Int32, true)]))),
+        ("struct-fsb0", Struct(Fields::from(vec![Field::new("z", FixedSizeBinary(0), true)]))),
+        ("struct-empty", Struct(Fields::empty())),
+        ("dict-i8-utf8", Dictionary(Box::new(Int8), Box::new(Utf8))),
+        ("dict-i32-utf8", Dictionary(Box::new(Int32), Box::new(Utf8))),
+        ("dict-u16-i64", Dictionary(Box::new(UInt16), Box::new(Int64))),
+        ("ree-i32-utf8", RunEndEncoded(Arc::new(Field::new("run_ends", Int32, false)), Arc::new(Field::new("values", Utf8, true)))),
+        ("ree-i16-i32", RunEndEncoded(Arc::new(Field::new("run_ends", Int16, false)), Arc::new(Field::new("values", Int32, true)))),
+        ("ree-i64-bool", RunEndEncoded(Arc::new(Field::new("run_ends", Int64, false)), Arc::new(Field::new("values", Boolean, true)))),
+        ("union-dense", Union(uf(vec![(0, Int32), (5, Utf8)]), UnionMode::Dense)),
+        ("union-sparse", Union(uf(vec![(7, Int32), (1, Utf8)]), UnionMode::Sparse)),
+        ("map", Map(Arc::new(Field::new("entries", Struct(Fields::from(vec![Field::new("keys", Utf8, false), Field::new("values", Int32, true)])), false)), false)),
+        ("list-struct", List(item(Struct(Fields::from(vec![Field::new("a", Int32, true)])), true))),
+        ("list-dict", List(item(Dictionary(Box::new(Int8), Box::new(Utf8)), true))),
+        ("utf8view", Utf8View),
+        ("binaryview", BinaryView),
+        ("listview-i32", ListView(item(Int32, true))),
+        ("large-listview-utf8", LargeListView(item(Utf8, true))),
+    ]
+}
+
+fn pick_len(rng: &mut Rng) -> usize {
+    match rng.below(10) {
+        0 => 0,
+        1 => 1,
+        2 => *rng.pick(&[7usize, 8, 9]),
+        3 => *rng.pick(&[15usize, 16, 17, 31, 33]),
+        _ => 2 + rng.usize(10),
+    }
+}
+fn pick_off(rng: &mut Rng) -> usize {
+    match rng.below(8) {
+        0..=2 => 0,
+        3 => *rng.pick(&[7usize, 8, 9, 13]),
+        _ => 1 + rng.usize(5),
+    }
+}
+
+/// the reproduced defects, replayed on every run (case lines are self-contained)
+const WITNESSES: [&str; 0] = [];
+
+fn main() {
+    let args = parse_args();
+    if std::env::var("VERIF_LOUD").is_err() {
+        quiet_panics();
+    }
+    let mut sink = Sink::new(&args.out);
+    // run one case line (plus the extra lines it spawns); returns the step's output
+    fn emit(sink: &mut Sink, line: String, tags: &str) -> Option<ArrayRef> {
+        ORACLE.with(|o| o.borrow_mut().clear());
+        TAGS.with(|o| o.borrow_mut().clear());
+        EXTRA.with(|o| o.borrow_mut().clear());
+        let a = guarded(|| run_case(&line));
+        let out = OUT.with(|o| o.borrow_mut().take());
+        let fails: Vec<String> = ORACLE.with(|o| o.borrow_mut().drain(..).collect());
+        let more: Vec<String> = TAGS.with(|o| o.borrow_mut().drain(..).collect());
+        let extra: Vec<(String, String)> = EXTRA.with(|o| o.borrow_mut().drain(..).collect());
+        let mut tags = tags.to_string();
+        for u in more {
+            tags.push(' ');
+            tags.push_str(&u);
+        }
+        let a = if a == "PANIC" {
+            sink.oracle_failure(line.clone(), "panic:harness".into(), &tags);
+            "wf=1".to_string()
+        } else {
+            a
+        };
+        for f in fails {
+            sink.oracle_failure(line.clone(), f, &tags);
+        }
+        sink.case(line, a, &tags);
+        for (l, t) in extra {
+            let _ = emit(sink, l, &t);
+        }
+        out
+    }
+    if args.mode == "replay" {
+        for line in read_cases(args.replay.as_ref().unwrap()) {
+            emit(&mut sink, line, "replay");
+        }
+    } else {
+        for l in WITNESSES.iter() {
+            emit(&mut sink, l.to_string(), "witness nt");
+        }
+        let grid = type_grid();
+        let n = n_cases(&args, 2500, 100000);
+        for idx in 0..n {
+            let mut rng = Rng::new((args.seed ^ 0xC01).wrapping_add((idx as u64).wrapping_mul(0x9E37_79B9_7F4A_7C15)));
+            let (gname, dt) = rng.pick(&grid).clone();
+            let exotic = rng.chance(1, 3);
+            let rows = pick_len(&mut rng);
+            let off = pick_off(&mut rng);
+            let mut cur = gen_layout(&mut rng, &dt, rows, off, false, exotic);
+            let stages = 1 + rng.usize(6);
+            let mut prev = "gen".to_string();
+            for stage in 0..=stages {
+                let last = stage == stages;
+                let name = *rng.pick(&STEPS);
+                let step = if last { "end".to_string() } else { format!("{}:{}", name, rng.below(1 << 32)) };
+                let desc = format!("{}.{}.{}/{}/{}", args.seed, idx, stage, gname, prev);
+                let op = if is_ext(&cur.dt) { "stepx" } else { "step" };
+                let line = format!("C01 {} {} {} {} {}", op, desc, step, lt_token(&cur.dt), show_phys(&cur));
+                let mut tags = format!("stage:{} grid:{}{}{}", stage, gname, if exotic { " lay:exotic" } else { "" }, if cur.len > 0 { " nt" } else { "" });
+                if stage > 0 {
+                    tags.push_str(&format!(" from:{}", prev));
+                }
+                let out = emit(&mut sink, line, &tags);
+                if last {
+                    break;
+                }
+                if let Some(out) = out {
+                    let out = if out.len() > MAX_ROWS { out.slice(0, MAX_ROWS) } else { out };
+                    match catch_unwind(AssertUnwindSafe(|| phys_of(&out.to_data()))) {
+                        Ok(p) => {
+                            cur = p;
+                            prev = name.to_string();
+                        }
+                        Err(_) => {
+                            sink.oracle_failure(format!("C01 step {} dump", desc), format!("panic:to_data-after:{}", name), &tags);
+                            break;
+                        }
+                    }
+                }
+            }
+        }
+    }
+    sink.finish();
 }
